@@ -487,7 +487,7 @@ func genC02Settings(t *rapid.T) Settings {
 		RateLimit:   rapid.IntRange(0, 4).Draw(t, "ratelimit") == 0,
 	}
 	// (the operator's list comes as typed: any order, duplicates)
-	s.DiscardStatus = [][]int{nil, {429}, {429}, {429, 500}, {404}, {403, 503}, {200}, {204, 301, 302}, {429, 404}, {503, 403}, {500, 404, 429, 404}}[rapid.IntRange(0, 10).Draw(t, "discard")]
+	s.DiscardStatus = [][]int{nil, {429}, {429}, {429, 500}, {404}, {403, 503}, {200}, {204, 301, 302}, {429, 404}, {503, 403}, {500, 404, 429, 404}, {420, 520}, {999, 499, 429}}[rapid.IntRange(0, 12).Draw(t, "discard")]
 	if rapid.IntRange(0, 9).Draw(t, "rotation") == 0 {
 		s.WARCSizeMB = 1
 	}
@@ -522,10 +522,20 @@ func c02DirectedBrokenThenConcurrent(variant int) Case {
 			c.Site[ref] = r
 			page.Assets = append(page.Assets, ref)
 		}
+		if k == 5 {
+			// two requisites answered with status codes the operator asked not to keep - codes without a registered reason
+			// phrase (a rate-limit 420, a Cloudflare 520) - next to one that is kept
+			for i, st := range []int{420, 520, 404} {
+				ref := fmt.Sprintf("h1:/s%d/e%d.png", k, i)
+				c.Site[ref] = &Resp{Status: st, Kind: "text", CType: "text/plain", Framing: "cl", Size: 200 + i, BodySeed: int64(900 + i)}
+				page.Assets = append(page.Assets, ref)
+			}
+		}
 		pref := fmt.Sprintf("h0:/s%d/p", k)
 		c.Site[pref] = page
 		c.Seeds = append(c.Seeds, SeedPlan{ID: fmt.Sprintf("seed-%d", k), Ref: pref, Prefix: fmt.Sprintf("/s%d/", k)})
 	}
+	c.Settings.DiscardStatus = []int{429, 420, 520}
 	return c
 }
 
